@@ -10,7 +10,7 @@ src = f"/tmp/seeded-out/{pid}/{x}"
 wt = f"/tmp/wtc-{pid}-{x}"
 env = dict(os.environ, GOFLAGS="-mod=mod", GOPROXY="off", GOSUMDB="off", GOTOOLCHAIN="local")
 def sh(cmd, cwd=None):
-    p = subprocess.run(cmd, cwd=cwd, env=env, shell=True, capture_output=True, text=True)
+    p = subprocess.run(cmd, cwd=cwd, env=env, shell=True, capture_output=True, text=True, errors='replace')
     return p.returncode, p.stdout + p.stderr
 subprocess.run(f"git -C /repo worktree remove --force {wt}", shell=True, capture_output=True)
 rc, out = sh(f"git -C /repo worktree add -q --detach {wt} HEAD")
@@ -50,7 +50,7 @@ results = {}
 rc, out = sh(f"git -C /repo apply {src}/patch.diff"); assert rc == 0, out
 try:
     for c in checks:
-        p = subprocess.run(["./check", c, "--tier", "quick"], cwd="/verif", capture_output=True, text=True)
+        p = subprocess.run(["./check", c, "--tier", "quick"], cwd="/verif", capture_output=True, text=True, errors="replace")
         lines = [l for l in p.stdout.splitlines() if l.startswith(("VIOLATION", "OK"))]
         results[c] = {"exit": p.returncode, "line": lines[-1] if lines else p.stderr[-300:]}
         print(c, results[c])
